@@ -96,11 +96,28 @@ def write (p : Nat) (bs : Bytes) : Step := emit (.write p bs)
 
 /-! ### factory.py -/
 
+/-- MQTTFactory._idInUse: an unfinished request of any address still carries this identifier -/
+def idInUse (w : World) (i : Nat) : Bool :=
+  w.addrs.any fun (_, a) =>
+    a.winPub.contains i || a.winRel.contains i || a.winSub.contains i || a.winUnsub.contains i ||
+    a.queue.any fun rid => (w.req rid).msgId == i
+
+/-- `(id + 1) % 65536 or 1` -/
+def bumpId (i : Nat) : Nat :=
+  let i0 := (i + 1) % 65536
+  if i0 = 0 then 1 else i0
+
+/-- the `for _ in range(65535)` loop of makeId: the last identifier tried -/
+def scanId (w : World) : Nat → Nat → Nat
+  | 0, cur => cur
+  | fuel + 1, cur =>
+    let i := bumpId cur
+    if idInUse w i then scanId w fuel i else i
+
 /-- MQTTFactory.makeId -/
 def makeId (k : Nat → Step) : Step :=
   Step.read fun w =>
-    let i0 := (w.nextId + 1) % 65536
-    let i := if i0 = 0 then 1 else i0
+    let i := scanId w 65535 w.nextId
     Step.mod (fun w => { w with nextId := i, idAllocs := w.idAllocs + 1 }) ;; k i
 
 /-- MQTTFactory.buildProtocol(addr) followed by makeConnection(transport) -/
@@ -142,6 +159,12 @@ def patchDup (bs : Bytes) (dup : Bool) : Bytes :=
   | [] => []
   | h :: r => (h ||| (b2n dup <<< 3)) :: r
 
+/-- `reply.encoded[0] &= 0xF7` -/
+def clearDup (bs : Bytes) : Bytes :=
+  match bs with
+  | [] => []
+  | h :: r => (h &&& 0xF7) :: r
+
 /-- MQTTProtocol._retryPublish(request, dup) run by protocol `p` -/
 def retryPublish (p rid : Nat) (dup : Bool) : Step :=
   setReq rid (fun r => { r with encoded := patchDup r.encoded dup }) ;;
@@ -156,7 +179,8 @@ def retryPublish (p rid : Nat) (dup : Bool) : Step :=
 /-- MQTTProtocol._retryRelease(reply, dup) -/
 def retryRelease (p rid : Nat) (dup : Bool) : Step :=
   Step.read fun w =>
-    (if (w.proto p).version = v31 then setReq rid (fun r => { r with encoded := patchDup r.encoded dup }) else Step.ok) ;;
+    (if (w.proto p).version = v31 then setReq rid (fun r => { r with encoded := patchDup r.encoded dup })
+     else setReq rid (fun r => { r with encoded := clearDup r.encoded })) ;;
     intervalNext rid fun d =>
       callLater d (.retry p rid) fun tid =>
         setReq rid (fun r => { r with alarm := some tid }) ;;
